@@ -93,13 +93,59 @@ func (c *collection) updateIndexedDoc(
 	if err != nil {
 		return err
 	}
+	newDoc, err := c.withStoredIndexedValues(oldDoc, doc)
+	if err != nil {
+		return err
+	}
 	for _, index := range c.indexes {
-		err = index.Update(ctx, oldDoc, doc)
+		err = index.Update(ctx, oldDoc, newDoc)
 		if err != nil {
 			return err
 		}
 	}
 	return nil
+}
+
+// withStoredIndexedValues returns the document the indexes have to describe after an update.
+//
+// The document given to an update may carry the changed fields only. An indexed field it does
+// not carry keeps the value of the stored document, it must not be indexed as nil. If the given
+// document carries all indexed fields that have a stored value it is returned as is.
+func (c *collection) withStoredIndexedValues(oldDoc, doc *client.Document) (*client.Document, error) {
+	isComplete := true
+	for _, index := range c.indexes {
+		for _, field := range index.Description().Fields {
+			_, newErr := doc.GetValue(field.Name)
+			_, oldErr := oldDoc.GetValue(field.Name)
+			if newErr != nil && oldErr == nil {
+				isComplete = false
+			}
+		}
+	}
+	if isComplete {
+		return doc, nil
+	}
+
+	merged, err := client.NewDocWithID(doc.ID(), c.Definition())
+	if err != nil {
+		return nil, err
+	}
+	for _, index := range c.indexes {
+		for _, field := range index.Description().Fields {
+			val, err := doc.GetValue(field.Name)
+			if err != nil {
+				val, err = oldDoc.GetValue(field.Name)
+			}
+			if err != nil {
+				continue
+			}
+			err = merged.Set(field.Name, val.Value())
+			if err != nil {
+				return nil, err
+			}
+		}
+	}
+	return merged, nil
 }
 
 func (c *collection) deleteIndexedDoc(
